@@ -83,7 +83,7 @@ def cmd_verify(sid):
                 shutil.copy(f"{d}/{f}", dst)
                 placed.append(dst)
             c = demo_cmd.replace(m.get("worktree", "/nonexistent"), wt)
-            for p in ("/tmp/seed/" + m.get("property", "XXX"),):
+            for p in ("/tmp/seed2/" + m.get("property", "XXX"), "/tmp/seed3/" + m.get("property", "XXX"), "/tmp/seed/" + m.get("property", "XXX")):
                 c = c.replace(p, wt)
             r = sh(c, cwd=wt, timeout=1800)
             for p in placed:
